@@ -518,6 +518,12 @@ class Parser:
         (l0, c0), (l1, c1) = lbrace.end, tokens[idx + 1].start  # '!', ':' or the closing brace
         lines = self._tokenizer.get_lines(list(range(l0, l1 + 1)))
         lines[-1] = lines[-1][:c1]
+        inner = [t for t in tokens[: idx + 1] if t.end > (l0, c0)]
+        for row, line in enumerate(lines, l0):  # a comment is no part of the text: its line end is
+            for col in (m.start() for m in re.finditer("#", line)):
+                if (row, col) >= (l0, c0) and not any(t.start <= (row, col) < t.end for t in inner):
+                    lines[row - l0] = line[:col] + line[len(line.rstrip("\r\n")) :]
+                    break
         lines[0] = lines[0][c0:]
         source = "".join(lines).replace("\r\n", "\n").replace("\r", "\n")  # newlines are translated as in any source text
         text = ast.Constant(value=source, lineno=l0, col_offset=c0, end_lineno=l1, end_col_offset=c1)
